@@ -39,6 +39,10 @@ class BaseRandomLineAccessFile(collections.abc.Sequence, Generic[C], ABC):
         self.path_to = path_to
         self._dirty = False
         self._lines: MutableSequence[Union[int, str]] = [] if lines is None else lines
+        # True when the index covers all the lines of the file in their natural order
+        self._sequential_index = False
+        # the iterator that read the file as the last one, None when the file cursor was moved by somebody else
+        self._last_sequential_reader = None
 
     @property
     def dirty(self) -> bool:
@@ -74,8 +78,13 @@ class BaseRandomLineAccessFile(collections.abc.Sequence, Generic[C], ABC):
             for n in range(len(self)):
                 yield self._get_item(n)
         else:
-            self._file_seek(0)
+            # Reading without a seek is faster, but it is correct only when the next line of the file is the next line
+            # of the index and nobody else (random access, another iteration) moved the file cursor in the meantime.
+            reader = object()
             for n in range(len(self)):
+                if not self._sequential_index or self._last_sequential_reader is not reader:
+                    self._file_seek(self._lines[n])
+                    self._last_sequential_reader = reader
                 yield self._read_next_line()
 
     @abstractmethod
@@ -199,6 +208,7 @@ class RandomLineAccessFile(BaseRandomLineAccessFile[str]):
         self._lines = line_offsets
         if line_offsets is None:
             self._index_file()
+            self._sequential_index = True
         elif isinstance(line_offsets, str):
             self._lines = self.read_index_from_file(line_offsets)
         self._opened_in_process_with_id = None
@@ -267,6 +277,7 @@ class RandomLineAccessFile(BaseRandomLineAccessFile[str]):
 
     def _file_seek(self, offset: int):
         self.reopen_if_needed()
+        self._last_sequential_reader = None
         self.file.seek(offset)
 
     def _read_line(self, n: int) -> str:
@@ -300,6 +311,7 @@ class MemoryMappedRandomLineAccessFile(RandomLineAccessFile):
 
     def _file_seek(self, offset: int):
         self.reopen_if_needed()
+        self._last_sequential_reader = None
         self.mm.seek(offset)
 
     def _read_line(self, n: int) -> str:
